@@ -515,6 +515,15 @@ def _indicator_of(stmt, tmp):
     return None
 
 
+def _exclusive(tree, a, b):
+    """a and b sit in different branches of one If (never on one path of an iteration)"""
+    def chain(n):
+        sn = tree.stmt_of(n) if not isinstance(n, ast.stmt) else n
+        return [(id(owner), field) for (s_, owner, field, idx) in tree.ancestors(sn) if isinstance(owner, ast.If)]
+    ca, cb = dict(chain(a)), dict(chain(b))
+    return any(k in cb and cb[k] != v for k, v in ca.items())
+
+
 def check_accounting_is_granting(p, report, rule="R10.7"):
     """The indicator by which the simulated spent-estimate advances is the
     condition under which the label is granted (index appended / record
@@ -574,7 +583,8 @@ def check_accounting_is_granting(p, report, rule="R10.7"):
                             # the name must not be rebound between the two statements
                             lo, hi = sorted((st.lineno, g.lineno))
                             ok = not any(isinstance(x, ast.Name) and x.id == E.id and isinstance(x.ctx, ast.Store)
-                                         and lo < x.lineno < hi for x in ast.walk(L))
+                                         and lo < x.lineno < hi and not _exclusive(tree, x, g) and not _exclusive(tree, x, st)
+                                         for x in ast.walk(L))
                         verdicts.append((ok, f"grant under `{norm_stmt(cond, 50)}`"))
                 good = all(v for v, _ in verdicts)
                 n += 1
@@ -661,7 +671,11 @@ def _norm_test(test, branch, seed_map, tails):
         t = ast.Compare(left=t.comparators[0], ops=[ast.Lt() if isinstance(t.ops[0], ast.Gt) else ast.LtE()],
                         comparators=[t.left])
     pos = (branch == "body") != neg
-    return (" ".join(ast.unparse(t).split()), "T" if pos else "F")
+    txt = " ".join(ast.unparse(t).split())
+    if "self.budget_" in txt:
+        # the budget guard itself is judged by R4.1/R4.2/R10.2; here only its presence and branch
+        txt = "$BUDGET_GUARD"
+    return (txt, "T" if pos else "F")
 
 
 def transition_contexts(fnode, targets, seed_map, within=None):
